@@ -783,7 +783,8 @@ fn gen_comment_text(ch: &mut Choices, hostile: bool) -> String {
             .pick(&["é ü 日本", "a\tb", "x;y||z", "24/7", "\u{0}", "'", ", ", "a, b", "\\", "🙂", "\u{202e}abc"])
             .to_string();
     }
-    ch.pick(&["c0", "c1", "c2", "by appointment", "a, b", "Z", "x"]).to_string()
+    // edge whitespace is part of a comment
+    ch.pick(&["c0", "c1", "c2", "by appointment", "a, b", "Z", "x", "c0", "c1", " lead", "trail ", " "]).to_string()
 }
 
 fn gen_rule(ch: &mut Choices, cfg: &Cfg, out: &mut String, operator: RuleOperator) -> GenRule {
